@@ -13,6 +13,7 @@
 #include "common.h"
 
 #include "QXmppConfiguration.h"
+#include "QXmppSasl2UserAgent.h"
 #include "QXmppSaslManager_p.h"
 #include "QXmppSasl_p.h"
 #include "XmppSocket.h"
@@ -278,13 +279,15 @@ static BA scramFirst(Client &cl)
 }
 
 // the honest exchange; returns false when the client-side part failed
-static void scramHonest(const ScramCase &k, bool checkOtherPassword)
+static void scramHonest(const ScramCase &k, bool checkOtherPassword, const BA &extensions = BA())
 {
     const Alg &a = *algOfScram(k.cfg.mech);
     Client cl(k.cfg);
     const BA clientFirst = scramFirst(cl);
     const BA nonce = k.cfg.cnonce + k.snonce;
-    const BA serverFirst = refServerFirst(nonce, k.salt, k.iters);
+    // RFC 5802 7: server-first-message = [reserved-mext ","] nonce "," salt "," iteration-count ["," extensions];
+    // the AuthMessage contains the server-first message exactly as sent
+    const BA serverFirst = refServerFirst(nonce, k.salt, k.iters) + extensions;
     auto fin = cl.respond(serverFirst);
     const bool special = k.cfg.user.contains(',') || k.cfg.user.contains('=');
     if (!fin) { oracleFail("C06:scram-honest-server-first-refused", cl.history); return; }
@@ -835,6 +838,175 @@ static void enumerateMgr(const MgrCfg &cfg, const std::vector<S> &alpha, int dep
     for (auto &a : alpha) { cur.push_back(a); enumerateMgr(cfg, alpha, depth, cur, rng); cur.pop_back(); }
 }
 
+
+// ------------------------------------------------------------------------------------------------ FAST tokens over several connections
+static const char *FAST_NAMES[] = { "HT-SHA-256-NONE", "HT-SHA-512-NONE", "HT-SHA3-256-NONE", "HT-SHA3-512-NONE" };
+
+// one client object (QXmppConfiguration + FastTokenManager, wired as in QXmppOutgoingClient::startSasl2Auth) over several connections
+struct FastEnv {
+    QXmppConfiguration config;
+    FastTokenManager fast { config };
+    BA user, pass;
+    std::map<BA, S> issuedFor;     // the server's ledger: token secret -> mechanism it was issued for
+    std::unique_ptr<Capture> cap;
+    std::unique_ptr<Sasl2Manager> mgr;
+    std::unique_ptr<QObject> ctx;
+    bool pending = false, tainted = false;
+    S reqSent, usedHt;
+    std::optional<Sasl2::Success> succ;
+    bool errored = false;
+    S history;
+
+    FastEnv(const BA &u, const BA &p) : user(u), pass(p)
+    {
+        config.setUser(QString::fromUtf8(u));
+        config.setDomain(QStringLiteral("example.org"));
+        config.setDisabledSaslMechanisms({});
+        config.setSasl2UserAgent(QXmppSasl2UserAgent(QUuid(QStringLiteral("{d4565fa7-4d72-4749-b3d3-740edbf87770}")), QStringLiteral("verif"), QStringLiteral("box")));
+        corr("reset f " + hx(u) + " " + hx(p), "ok");
+        history = "fast user=" + printable(u);
+        stat("fast_sequences");
+    }
+    S tokState()
+    {
+        auto &t = config.credentialData().htToken;
+        return (t ? "tok=" + t->mechanism.toString().toStdString() + "/" + hx(t->secret.toUtf8()) : S("tok=-")) + (fast.tokenChanged() ? " ch=1" : " ch=0");
+    }
+    void setCreds(bool pw, const S &tokMech, const BA &secret)
+    {
+        printf("I %s | setcreds\n", history.c_str());
+        config.setPassword(pw ? QString::fromUtf8(pass) : QString());
+        if (tokMech.empty()) config.credentialData().htToken.reset();
+        else {
+            config.credentialData().htToken = HtToken { *htMech(tokMech), QString::fromUtf8(secret), QDateTime() };
+            issuedFor[secret] = tokMech;     // the application stores a token together with the mechanism it was issued for
+        }
+        if (pending) tainted = true;         // credentials replaced while a login is pending: outside the theorem's histories
+        S op = S("setcreds ") + (pw ? "1 " : "0 ") + (tokMech.empty() ? S("-") : tokMech + "/" + hx(secret));
+        corr(op, "- " + tokState());
+        history += " | " + op;
+    }
+    void login(bool fastEnabled, const std::optional<std::vector<S>> &offer)
+    {
+        S op = S("login ") + (fastEnabled ? "1 " : "0 ");
+        if (!offer) op += "!";
+        else if (offer->empty()) op += "-";
+        else for (size_t i = 0; i < offer->size(); i++) op += (i ? "," : "") + (*offer)[i];
+        printf("I %s | %s\n", history.c_str(), op.c_str());
+        config.setUseFastTokenAuthentication(fastEnabled);
+        Sasl2::StreamFeature feature;
+        feature.mechanisms = { QStringLiteral("PLAIN") };
+        if (offer) { FastFeature ff; for (auto &n : *offer) ff.mechanisms.push_back(QString::fromStdString(n)); feature.fast = ff; }
+        const BA heldSecret = config.credentialData().htToken ? config.credentialData().htToken->secret.toUtf8() : BA();
+        Sasl2::Authenticate auth;
+        fast.onSasl2Authenticate(auth, feature);
+        cap = std::make_unique<Capture>();
+        mgr = std::make_unique<Sasl2Manager>(cap.get());
+        ctx = std::make_unique<QObject>();
+        succ.reset(); errored = false; tainted = false; reqSent.clear(); usedHt.clear();
+        auto task = mgr->authenticate(std::move(auth), config, feature, g_log);
+        task.then(ctx.get(), [this](Sasl2Manager::AuthResult &&r) {
+            if (auto *ok = std::get_if<Sasl2::Success>(&r)) succ = *ok; else errored = true;
+        });
+        S obs;
+        if (errored || cap->sent.empty()) { obs = "error"; pending = false; }
+        else {
+            pending = true;
+            QDomDocument doc;
+            doc.setContent(cap->sent[0], true);
+            auto el = doc.documentElement();
+            const S mech = el.attribute(QStringLiteral("mechanism")).toStdString();
+            const BA initial = BA::fromBase64(el.firstChildElement(QStringLiteral("initial-response")).text().toUtf8());
+            for (auto ch = el.firstChildElement(); !ch.isNull(); ch = ch.nextSiblingElement())
+                if (ch.tagName() == QLatin1String("request-token") && ch.namespaceURI() == QLatin1String("urn:xmpp:fast:0")) reqSent = ch.attribute(QStringLiteral("mechanism")).toStdString();
+            if (mech == "PLAIN") obs = "plain " + hx(initial);
+            else { usedHt = mech; obs = "ht " + mech + " " + hx(initial); }
+            obs += " req=" + (reqSent.empty() ? S("-") : reqSent);
+            // XEP-0484: a stored token is used with the mechanism the server issued it for, and the initial response is
+            // authcid NUL HMAC_<hash of that mechanism>(token, "Initiator" || cb-data), cb-data empty for -NONE
+            if (!usedHt.empty()) {
+                auto it = issuedFor.find(heldSecret);
+                if (it != issuedFor.end()) {
+                    const Alg *a = algOfHt(it->second);
+                    const bool ok = a && usedHt == it->second && initial == user + char(0) + HMAC(*a, heldSecret, "Initiator");
+                    if (!ok) oracleFail("C06:fast-token-wrong-mechanism", history + " | " + op + " -> announced " + usedHt + " for a token issued for " + it->second);
+                    else oraclePass()++;
+                }
+            }
+        }
+        corr(op, obs + " " + tokState());
+        history += " | " + op;
+        stat("fast_logins");
+    }
+    void success(const BA &tok)
+    {
+        S op = "success " + hx(tok);
+        printf("I %s | %s\n", history.c_str(), op.c_str());
+        if (pending) {
+            BA xml = BA("<success xmlns='urn:xmpp:sasl:2'><authorization-identifier>u@example.org/r</authorization-identifier>");
+            if (!tok.isEmpty()) xml += "<token xmlns='urn:xmpp:fast:0' token='" + tok + "' expiry='2031-01-01T00:00:00Z'/>";
+            xml += "</success>";
+            QDomDocument doc;
+            doc.setContent(xml, true);
+            mgr->handleElement(doc.documentElement());
+            if (succ) {
+                fast.onSasl2Success(*succ);
+                // the server issued the token for the mechanism requested in this login, or (rotation) for the one just used
+                if (!tok.isEmpty() && !tainted) {
+                    if (!reqSent.empty()) issuedFor[tok] = reqSent;
+                    else if (!usedHt.empty()) issuedFor[tok] = usedHt;
+                }
+            }
+            pending = false;
+        }
+        corr(op, "- " + tokState());
+        history += " | " + op;
+    }
+    void fail()
+    {
+        if (pending) {
+            QDomDocument doc;
+            doc.setContent(BA("<failure xmlns='urn:xmpp:sasl:2'><not-authorized xmlns='urn:ietf:params:xml:ns:xmpp-sasl'/></failure>"), true);
+            mgr->handleElement(doc.documentElement());
+            pending = false;
+        }
+        corr("fail", "- " + tokState());
+        history += " | fail";
+    }
+};
+
+static int g_fastTok = 0;
+static void playFast(FastEnv &e, const S &sym, Rng &rng)
+{
+    auto tok = [&]() { return BA("t") + BA::number(++g_fastTok) + "-" + randToken(rng, 3, 10); };
+    const std::vector<S> all { FAST_NAMES[0], FAST_NAMES[1], FAST_NAMES[2], FAST_NAMES[3] };
+    if (sym == "Cp") e.setCreds(true, "", BA());
+    else if (sym == "C0") e.setCreds(true, FAST_NAMES[0], tok());
+    else if (sym == "C3") e.setCreds(true, FAST_NAMES[3], tok());
+    else if (sym == "C1x") e.setCreds(false, FAST_NAMES[1], tok());
+    else if (sym == "Cn") e.setCreds(false, "", BA());
+    else if (sym == "L0") e.login(true, std::vector<S> { FAST_NAMES[0] });
+    else if (sym == "L30") e.login(true, std::vector<S> { FAST_NAMES[3], FAST_NAMES[0] });
+    else if (sym == "La") e.login(true, std::vector<S> { "HT-SHA-256-ENDP", FAST_NAMES[1], FAST_NAMES[0], "X-NONSENSE", FAST_NAMES[3], FAST_NAMES[2] });
+    else if (sym == "L2") e.login(true, std::vector<S> { FAST_NAMES[2], "HT-SHA3-512-EXPR" });
+    else if (sym == "Ln") e.login(true, std::nullopt);
+    else if (sym == "Le") e.login(true, std::vector<S> {});
+    else if (sym == "Ld") e.login(false, all);
+    else if (sym == "S") e.success(BA());
+    else if (sym == "St") e.success(tok());
+    else if (sym == "F") e.fail();
+}
+static void runFast(const std::vector<S> &syms, Rng &rng)
+{
+    FastEnv e(randText(rng, 1, 6, ""), randText(rng, 1, 8, ""));
+    for (auto &s : syms) playFast(e, s, rng);
+}
+static void enumerateFast(const std::vector<S> &alpha, int depth, std::vector<S> &cur, Rng &rng)
+{
+    if (int(cur.size()) == depth) { runFast(cur, rng); return; }
+    for (auto &a : alpha) { cur.push_back(a); enumerateFast(alpha, depth, cur, rng); cur.pop_back(); }
+}
+
 // ------------------------------------------------------------------------------------------------ main
 static ClientCfg randCfg(Rng &rng, const S &mech)
 {
@@ -871,6 +1043,7 @@ int main(int argc, char **argv)
         scramHonest(k, true);                                        // RFC 5802 §5
         ScramCase k2 { { "SCRAM-SHA-256", "user", "pencil", "rOprNGfwEbeRWgbNEkqO", "", "" }, "%hvYDpWUa2RaTCAfuxFIlj)hNlF$k0", BA::fromBase64("W22ZaJ0SNY7soEsUEjb6gQ=="), 4096 };
         scramHonest(k2, true);                                       // RFC 7677 §3
+        { ScramCase ke = k; ke.iters = 3; scramHonest(ke, true, ",x=ignored"); }   // extension attribute after i= (seeded change C06_c2)
         for (const char *u : { "a,b", "a=b", ",", "=2C", "x=3Dy," }) {   // RFC 5802 §5.1: ',' and '=' must travel as =2C / =3D (witnesses of the finding fixed in 43097ab)
             ScramCase k3 = k; k3.cfg.user = u; k3.iters = 2;
             scramHonest(k3, false);
@@ -908,6 +1081,25 @@ int main(int argc, char **argv)
         if (!r || r->toBase64() != "bG5qAKq/BuI7mZiZ6fByiqP1ARkYUI/WyFSh7tsYik1uUiB5") oracleFail("C06:ht-not-xep0484", c.history); else oraclePass()++;
     }
 
+    // ---------------- FAST tokens: corpus (seeded change C06_c1: request for X, stored token for Y, rotation, next login), then sequences
+    {
+        runFast({ "Cp", "L0", "St", "C3", "La", "St", "La", "S", "La" }, rng);
+        runFast({ "Cp", "La", "St", "La", "St", "L30", "St", "L0", "F", "Ld", "S", "La" }, rng);
+        const std::vector<S> alpha = { "Cp", "C0", "C3", "C1x", "L0", "L30", "La", "Ln", "Ld", "S", "St", "F" };
+        std::vector<S> cur;
+        for (int d = 1; d <= (g_thorough ? 5 : 4); d++) enumerateFast(alpha, d, cur, rng);
+        stat("fast_exhaustive_depth", g_thorough ? 5 : 4);
+        const std::vector<S> wide = { "Cp", "C0", "C3", "C1x", "Cn", "L0", "L30", "La", "La", "L2", "Ln", "Le", "Ld", "S", "St", "St", "St", "F" };
+        const int nf = g_thorough ? 20000 : 2500;
+        for (int i = 0; i < nf; i++) {
+            std::vector<S> syms { "Cp" };
+            int len = 3 + int(rng.below(14));
+            for (int j = 0; j < len; j++) syms.push_back(wide[rng.below(uint32_t(wide.size()))]);
+            if (i < 1) { S t; for (auto &x : syms) t += x + " "; sample("fast " + t); }
+            runFast(syms, rng);
+        }
+    }
+
     // ---------------- SCRAM, client level
     const int nScram = g_thorough ? 400 : 60;
     for (int i = 0; i < nScram; i++) {
@@ -922,7 +1114,9 @@ int main(int argc, char **argv)
             k.iters = pick < 60 ? 1 + int(rng.below(64)) : pick < 90 ? 1 + int(rng.below(1024)) : pick < 97 ? 4096 : (g_thorough ? 4097 + int(rng.below(30000)) : 4096);
             if (i < 2) sample("scram " + k.cfg.describe() + " snonce=" + printable(k.snonce) + " salt=" + hx(k.salt) + " i=" + std::to_string(k.iters));
             scramHonest(k, true);
-            ScramCase small = k; small.iters = 1 + int(rng.below(4));
+            ScramCase small = k;
+            small.iters = 1 + int(rng.below(4));
+            scramHonest(small, true, i % 2 ? BA(",x=ignored") : ",ext=" + randNonce(rng, 1, 8) + ",y=" + randNonce(rng, 0, 4)); small.iters = 1 + int(rng.below(4));
             scramForeignNonce(small, rng);
             scramBadSignature(small, rng);
             if (i % 4 == 0) scramBadParams(small);
